@@ -33,6 +33,24 @@ CHECKS = {
    design_ref="DESIGN.md section 6 C05",
    note=COMMON_NOTE + "Hand-modelled: Model/Ratchet.v from secret_tree.rs. Idealisation: distinct (leaf, kind, generation) give distinct keys (KDF collision-freeness; the key values themselves are C13). The (key, nonce) pairs actually passed to aead_seal are checked for duplicates on the implementation.",
    technique="Coq proof over ratchet state machine + vm_compute correspondence"),
+ "C19": dict(
+   category="proof",
+   text="Coq theorems (Props/C19.v) over models of both storage providers and of the repository: for every retention R >= 1 and every write sequence with contiguous epoch ids (the invariant the repository is proved to maintain) the in-memory and SQLite providers hold identical records, lookups and maxima; after a write exactly the last R ids are stored; a past epoch is readable exactly when it was entered since the last write or retained at the last write; the late-sender decision accepts exactly when the sender's leaf still holds the same key. Tie: both real providers are driven directly and compared step by step with their models (vm_compute), groups on both providers receive late messages of every age after random write patterns (model predicts readable / EpochNotFound), vacated / reused leaf scenarios.",
+   design_ref="DESIGN.md section 6 C19",
+   note=COMMON_NOTE + "Hand-modelled: Model/Storage.v (providers: relational meaning of the SQL statements in one transaction; repository). SQLite itself is trusted.",
+   technique="Coq proof over storage/repository model + vm_compute correspondence"),
+ "C06": dict(
+   category="proof",
+   text="Coq theorems (Props/C06.v): the regenerated Snapshot type round-trips through the codec for every value (every field that is stored is read back); for every sequence of repository operations and every cut point, loading returns exactly the last successfully written snapshot, on both providers; a failed write changes nothing; the providers expose the same history. Tie / search: generated histories on both providers with save+reload after random rounds (with cached proposals, own pending updates, a pending commit) and a crash point (save, unsaved epoch, reload): the complete observation including the hash of the encoded snapshot must be identical, and the reloaded member must stay in lockstep.",
+   design_ref="DESIGN.md section 6 C06",
+   note=COMMON_NOTE + "Process death is emulated by dropping all in-memory objects and re-opening the SQLite file. Fields of Group that are not in the Snapshot are covered only by the observation comparison. Known finding F8 (SQLite accepts retention 0).",
+   technique="Coq proof (codec round trip of the stored type + repository crash theorem) + reload differential"),
+ "C15": dict(
+   category="proof",
+   text="Coq theorems (Props/C15.v) over the repository model with an explicit fault schedule (one boolean per storage call): a failing store write, epoch read or max-id read returns an error and leaves the repository unchanged; the key package delete comes after the state is stored and the pending epochs forgotten, so the retry writes nothing twice and ends in the fault-free state. Tie / search: fault enumeration on the implementation: for generated histories every storage call of every operation (group state, key package and PSK stores) is failed once: error returned, complete snapshot unchanged, retry succeeds, same final state and stored history as the fault-free run.",
+   design_ref="DESIGN.md section 6 C15",
+   note=COMMON_NOTE + "That group-level operations leave the Group unchanged on a storage error is established on the implementation by exhaustive single-fault injection, not by a theorem about a Group model. Three defects found this way were repaired (fix: commits); known finding F2d (encrypted message key consumed before processing succeeds).",
+   technique="Coq proof over repository fault model + exhaustive single-fault injection"),
 }
 NOT_YET = {}
 props = [json.loads(l) for l in open(os.path.join(V, "properties.jsonl"))]
